@@ -179,7 +179,7 @@ func runPanic(m *model.Model, s *ob.Set) {
 		}
 	}
 	if total < 10 {
-		model.Fatal("PANIC: only %d reachable panic sites found", total)
+		model.Blind("PANIC: only %d reachable panic sites found", total)
 	}
 }
 
